@@ -24,6 +24,7 @@ func reportStress(prefix string, cfg stressCfg, res *stressResult, params map[st
 	out.Count(prefix+".waits_for_ring_data", res.DataWaits)
 	out.Count(prefix+".churned_connections", res.Churns)
 	out.Count(prefix+".retained_received", res.Retained)
+	out.Count(prefix+".published_flagged_dup", res.DupFlagged)
 }
 
 // TestC17: whole packets on every outgoing stream, per-publisher order.
